@@ -113,6 +113,9 @@ var Builders = []string{
 	`var cycA = {name: "a%N"}, cycB = {name: "b", peer: cycA}; cycA.peer = cycB; cycA.self = cycA; var arrCyc = [1]; arrCyc.push(arrCyc); var cycWalk = function(){ return cycA.peer.peer.self.name + arrCyc[1][1][0] };`,
 	// wrapper objects, arrays with holes and extra props, strings
 	`var wrapN = new Number(%N), wrapS = new String("str"), wrapB = new Boolean(false); wrapS.extra = 1; var holes = [1, , 3]; holes.tag = "t"; holes.length = 5; var sparse = []; sparse[7] = "x";`,
+	// String objects with non-ASCII text that the setup never reads by index: the first indexed read (and whatever
+	// the implementation builds for it) happens in the runtimes that share the object's internal value after Copy()
+	`var wideS = new String("żółć😀x%N"), wideO = Object("日本語%N"); wideS.tag = 1; var wideRead = function(){ return wideS[1] + wideS[6] + wideO[2] + wideS.hasOwnProperty("3") + ":" + Object.keys(wideO).length + ":" + wideS.charCodeAt(4) + ":" + JSON.stringify(Object.getOwnPropertyDescriptor(wideO, "0")) };`,
 	// getters on prototypes, inherited setters
 	`function Temp(){ this._c = %N } Object.defineProperty(Temp.prototype, "f", { get: function(){ return this._c * 2 }, set: function(v){ this._c = v / 2 }, configurable: true }); var temp = new Temp(); temp.f = 100; var tempF = function(){ return temp.f + ":" + temp._c };`,
 	// immutable and special bindings: named function expression, catch parameter, arguments in closures
